@@ -19,7 +19,15 @@ import (
 // <= 1) passed as the root itself.  Random part: composite queries over random
 // carriers.  Level P: normal (a result or a non-nil error) vs panic / fatal /
 // hang / error-value-as-data; the full value is level D.
-func init() { props["C07"] = c07 }
+func init() {
+	props["C07"] = c07
+	classifiers["C07"] = func(v Violation) string {
+		if v.Case["tag"] == "select-self-reference" {
+			return "self-reproducing-select"
+		}
+		return ""
+	}
+}
 
 func classC07(o h.Outcome) string {
 	switch o.Class {
@@ -165,6 +173,13 @@ func c07(c *Ctx) {
 				markC07(ec)
 			}
 		}
+	}
+	// the recorded finding: a Select whose sub-query is read from the data and reproduces itself
+	{
+		q := "$.AsArray().Select($.q)"
+		ec := c.AddEval(q, h.Obj("q", h.Str(q)), "select-self-reference", false, true)
+		markC07(ec)
+		ec.Proj = nil // the model answers OutOfFuel: compared on the implementation only
 	}
 	c.RunEvalCases()
 	c.Note("functions", len(names))
